@@ -242,9 +242,17 @@ Section WithDigest.
     let w4 := fold_left save_step items (snd p) in
     (fst c, fst p, w4).
 
+  (* add through a handle opened with read_only=True (the option is ignored by check / oids_exist /
+     checkout - the same functions above serve every handle - and only forbids add and gc):
+     HashFileDB.add runs its pre-verification first, then ObjectDB.add raises
+     ObjectDBPermissionError (code 1); nothing is copied, protected or recorded *)
+  Definition add_ro (w : world) (v : option bool) (items : list item) : world :=
+    if (match v with Some b => b | None => w_verify w end) then fold_left pre_step items w else w.
+
   (* ---------------------------------------------------------------- histories *)
   Inductive op :=
   | OAdd (v : option bool) (items : list item)
+  | OAddRO (v : option bool) (items : list item)       (* add through a read_only=True handle *)
   | OCheck (o : oid)
   | OExist (os : list oid)
   | OCheckout (o : oid)
@@ -267,6 +275,7 @@ Section WithDigest.
   Definition step (w : world) (p : op) : world * out :=
     match p with
     | OAdd v items => let r := add w v items in (snd r, OAdded (fst (fst r)) (snd (fst r)))
+    | OAddRO v items => (add_ro w v items, ORes 1)
     | OCheck o => let r := check w o in (snd r, ORes (fst r))
     | OExist os => let r := oids_exist w os in (snd r, OExists (fst r))
     | OCheckout o => let r := checkout w o in (snd r, OCheckedOut (fst (fst r)) (snd (fst r)))
